@@ -131,6 +131,20 @@ def bound_flags(ctx):
     return items
 
 
+def shutdowns(ctx):
+    """Session.shutdown() at every point around a retry decision: a refused retry fails the request with ConnectionShutdown"""
+    items = []
+    for dec in range(4):
+        for kind in (0, 3, 7):
+            for where in range(3):
+                sc = base(script=[[dec, 5], [1, None]])
+                ops = [['start'], ['resp', 0, [3, kind, 10]], ['run', 0], ['resp', 1, [3, 2, 11]]]
+                ops.insert(where + 1, ['shutdown'])
+                obs, bad, run = run_ops(sc, ops)
+                items.append((sc, obs, bad, {'nontrivial': True}))
+    return items
+
+
 def targeted(ctx):
     items = []
     for dec in range(4):
@@ -167,7 +181,7 @@ def run(ctx):
     t = targeted(ctx)
     items += t
     ctx.count('source', 'explicit_target', len(t))
-    for name, fn in (('consistency_levels', levels), ('speculative_in_flight', speculative), ('bound_vs_prepared_flags', bound_flags)):
+    for name, fn in (('session_shutdown', shutdowns), ('consistency_levels', levels), ('speculative_in_flight', speculative), ('bound_vs_prepared_flags', bound_flags)):
         part = fn(ctx)
         items += part
         ctx.count('source', name, len(part))
